@@ -53,6 +53,64 @@ def expand_predicate(ctx, fn: FuncInfo, e: ast.expr, depth: int = 3) -> ast.expr
     return e
 
 
+def _iter_base(e: ast.expr) -> ast.expr:
+    """the collection an iteration expression walks element by element: enumerate(xs) / list(xs) / reversed(xs) / zip(xs, ...) / xs[...]"""
+    while True:
+        if isinstance(e, ast.Call) and isinstance(e.func, ast.Name) and e.func.id in ("enumerate", "list", "tuple", "iter", "reversed", "sorted") and e.args:
+            e = e.args[0]
+        elif isinstance(e, ast.Call) and isinstance(e.func, ast.Name) and e.func.id == "zip" and e.args:
+            e = e.args[0]
+        else:
+            return e
+
+
+def one_per_element(ctx, fn: FuncInfo, e: ast.expr, param: str, depth: int = 4) -> bool:
+    """`e` holds exactly one element for each element of the parameter `param`: a comprehension / map over it without filter, or a list that
+    starts empty and gets exactly one append on every path of one loop over it."""
+    from .flow import FlowAnalysis, has_event
+
+    if depth <= 0 or e is None:
+        return False
+    if isinstance(e, ast.Call) and isinstance(e.func, ast.Name) and e.func.id in ("list", "tuple") and len(e.args) == 1:
+        return one_per_element(ctx, fn, e.args[0], param, depth)
+    if isinstance(e, ast.Call) and isinstance(e.func, ast.Name) and e.func.id == "map" and len(e.args) == 2:
+        b = _iter_base(e.args[1])
+        return isinstance(b, ast.Name) and b.id == param
+    if isinstance(e, (ast.ListComp, ast.GeneratorExp)) and len(e.generators) == 1 and not e.generators[0].ifs:
+        b = _iter_base(e.generators[0].iter)
+        return isinstance(b, ast.Name) and b.id == param
+    if isinstance(e, ast.Name) and e.id != param:
+        inits = [a for a in walk_no_nested(fn.node) if isinstance(a, (ast.Assign, ast.AnnAssign)) and a.value is not None
+                 and any(isinstance(t, ast.Name) and t.id == e.id for t in (a.targets if isinstance(a, ast.Assign) else [a.target]))]
+        if len(inits) != 1:
+            return False
+        v = inits[0].value
+        if not (isinstance(v, (ast.List, ast.Tuple)) and not v.elts):
+            return one_per_element(ctx, fn, v, param, depth - 1)
+        loops = [l for l in walk_no_nested(fn.node) if isinstance(l, ast.For) and any(
+            isinstance(c, ast.Call) and isinstance(c.func, ast.Attribute) and isinstance(c.func.value, ast.Name) and c.func.value.id == e.id for c in ast.walk(l))]
+        if len(loops) != 1:
+            return False
+        lp = loops[0]
+        b = _iter_base(lp.iter)
+        if not (isinstance(b, ast.Name) and b.id == param):
+            return False
+        others = [c for c in walk_no_nested(fn.node) if isinstance(c, ast.Call) and isinstance(c.func, ast.Attribute) and isinstance(c.func.value, ast.Name)
+                  and c.func.value.id == e.id and c.func.attr != "append"]
+        if others or any(isinstance(x, (ast.Break, ast.Continue)) for x in ast.walk(lp)):
+            return False
+        apps = {id(c) for c in ast.walk(lp) if isinstance(c, ast.Call) and isinstance(c.func, ast.Attribute) and c.func.attr == "append"
+                and isinstance(c.func.value, ast.Name) and c.func.value.id == e.id}
+        if len(apps) < 1:
+            return False
+        fa = FlowAnalysis(lp, lambda c, _i=apps: "EV:app" if id(c) in _i else None, body=lp.body)
+        ends = [x.state for x in fa.exits if x.kind == "end"]
+        # exactly one: every path has the event, and no path can have it twice (one append site, not inside an inner loop)
+        inner_loop = any(isinstance(x, (ast.For, ast.While)) for st in lp.body for x in ast.walk(st))
+        return bool(ends) and all(has_event(s_, "EV:app") for s_ in ends) and len(apps) == 1 and not inner_loop
+    return False
+
+
 def calls_through(ctx, fn: FuncInfo, target_qname: str, depth: int = 2, _map: dict | None = None) -> list[tuple[ast.Call, list[str]]]:
     """Calls to target reachable from fn, directly or via repo helpers that fn calls; arguments are rewritten into fn's own
     terms by substituting each helper's parameters with the caller's argument expressions (single-assignment locals expanded)."""
